@@ -437,6 +437,9 @@ def run_check(prop_id, tier, seed, collect=False, shards_override=None, cases_ov
         for k, c in sorted(merged.items(), key=lambda kv: -kv[1]["count"]):
             print(f"{c['count']:6d}  {c['violation']['subcheck']}  {c['violation']['disc']}  :: {c['violation']['msg'][:160]}")
             print(f"        desc={canon(c['desc'])[:400]}")
+        if os.environ.get("VERIF_COLLECT_JSON"):
+            with open(os.environ["VERIF_COLLECT_JSON"], "w") as f:
+                json.dump([{"count": c["count"], "violation": c["violation"], "desc": c["desc"]} for c in merged.values()], f, indent=1, default=str)
         print("# histogram:", json.dumps(dict(sorted(stats.hist.items()))))
         print("# refusals:", stats.refusals, " known:", stats.known, f" nontrivial={len(stats.nontrivial_hashes)} wall={wall:.1f}s")
         return 0
